@@ -62,7 +62,12 @@ class DiagnosticStatusRequest(ModbusRequest):
 
         :param data: The data to decode into the function code
         '''
-        self.sub_function_code, self.message = struct.unpack('>HH', data)
+        if len(data) == 4:
+            self.sub_function_code, self.message = struct.unpack('>HH', data)
+        else:
+            # Return Query Data (sub-function 0) may carry any number of words
+            words = struct.unpack('>' + 'H' * (len(data) // 2), data[:len(data) // 2 * 2])
+            self.sub_function_code, self.message = words[0], list(words[1:])
     
     def get_response_pdu_size(self):
         """
